@@ -78,5 +78,5 @@ def frame_from_knx_total(data, service):
         return
     total = data[4] * 256 + data[5]
     assert frame.header.total_length == total
-    assert 6 <= total <= len(data) or total < 6
+    assert 6 <= total <= len(data)
     assert bytes(rest) == bytes(data[total:])
